@@ -107,7 +107,7 @@ pub fn catalogue(callbacks_only: bool) -> Vec<History> {
     out
 }
 
-fn run_catalogue(prop: &'static str, list: &[History], case: &(dyn Fn(&History, &mut CurrentFile) -> (CaseStats, Option<Violation>) + Sync)) -> Merged {
+pub fn run_catalogue(prop: &'static str, list: &[History], case: &(dyn Fn(&History, &mut CurrentFile) -> (CaseStats, Option<Violation>) + Sync)) -> Merged {
     run_parallel(|shard| {
         let mut m = Merged::new();
         let mut cur = CurrentFile::open(prop, shard);
@@ -384,12 +384,22 @@ pub fn c13(tier: Tier, seed: u64) -> Verdict {
             }
         }
     }
+    if merged.violation.is_none() {
+        // the same postconditions when the allocator refuses a request of the shrinking call: a thinned grid, each
+        // allocator request of the history failing in turn
+        let list: Vec<History> = grid.iter().enumerate().filter(|(i, h)| i % 7 == 0 && h.ops.iter().all(|o| !matches!(o, Op::WithCapacity { n: Size::Abs(n), .. } if *n > 5000))).map(|(_, h)| h.clone()).collect();
+        let case = fault_case("C13", false);
+        let mut m = run_catalogue("C13", &list, &case);
+        m.counters.remove("catalogue_histories");
+        m.counters.insert("fault_grid_histories".into(), list.len() as u64);
+        merged.merge(m);
+    }
     finish(
         "C13",
         tier,
         seed,
         "exploration",
-        "exhaustive grid capacity (17 ... 1000, and 4 KiB ... 1 MiB) x length x min_capacity x sharing (unique, shared, shared with shorter handle, 3 handles, unshared again) x try/plain, plus proptest histories biased to shrink/reserve/clone; non-trivial = a shrink on a heap string whose capacity exceeds max(len, m); distinct history digests",
+        "exhaustive grid capacity (17 ... 1000, and 4 KiB ... 1 MiB) x length x min_capacity x sharing (unique, shared, shared with shorter handle, 3 handles, unshared again) x try/plain, plus proptest histories biased to shrink/reserve/clone; a seventh of the small grid cases re-run with each allocator request failing in turn (a shrink that reports success landed exactly; after any shrink the capacity is within the stated bounds); non-trivial = a shrink on a heap string whose capacity exceeds max(len, m); distinct history digests",
         ASSUME_HIST,
         &merged,
         t0.elapsed().as_secs_f64(),
